@@ -52,7 +52,8 @@ REQUIRED_COUNTERS = ['policy_error', 'policy_ignore', 'policy_subtract', 'subtra
                      'tie_across_wholes_big:constant', 'tie_multi_place', 'tie_3plus_members',
                      'subtract_2plus_untied', 'subtract_tie_decrement', 'subtract_level_consumed',
                      'overaward:hare_rounded', 'overaward:hagenbach_bischoff_rounded', 'overaward:hagenbach_bischoff_ceil',
-                     'overaward:constant', 'zero_vote_2plus', 'prev_covers_quotas', 'cap_and_prev_same_party',
+                     'overaward:constant', 'zero_vote_2plus', 'prev_covers_quotas', 'negative_remainder_in_play',
+                     'cap_and_prev_same_party',
                      'names:int0', 'names:empty0', 'names:person',
                      'quota_as:callable', 'quota_as:lambda', 'votes_all_fraction', 'fraction_zero_vote',
                      'ctor_defaults', 'ctor_positional', 'call_positional', 'call_omit_empty',
@@ -725,6 +726,8 @@ def _tag(c):
         tags.append('zero_vote_2plus')
     if any(sp.w[c_] > 0 and sp.p[c_] >= sp.w[c_] for c_ in sp.v):
         tags.append('prev_covers_quotas')
+    if any(sp.p[c_] > sp.w[c_] for c_ in sp.v) and sp.T <= sp.n and c['op'] == 'lr' and sp.n - sp.T > 0:
+        tags.append('negative_remainder_in_play')
     if any(c_ in sp.cap and sp.p[c_] > 0 for c_ in sp.v):
         tags.append('cap_and_prev_same_party')
     how = c.get('how') or {}
@@ -879,6 +882,15 @@ def _directed_audit(rng, k):
         c['how'] = how
         yield c
     yield dict(_mk(op, [X, 3 * X, 2 * X, 0], 6, 'hare', ae, pol), how={'all_fraction': True})
+    yield dict(_mk(op, [47 * X, 16 * X, 37 * X], 10, 'droop', ae, pol), how={'all_fraction': True})
+    yield dict(_mk(op, [5 * X, 3 * X + 1, 2 * X - 1], 10, 'const:' + str(X), ae, pol), how={'all_fraction': True})
+    # exact multiples of a 31-digit quota, typed Fraction: float division would misround 3q/q, 6q/q, 21q/q
+    Qc = 10 ** 30 + 7
+    yield dict(_mk(op, [3 * Qc, 6 * Qc, 21 * Qc, 5 * Qc], 35 + (k % 2), 'const:' + str(Qc), ae, pol), how={'all_fraction': True})
+    yield dict(_mk(op, [12 * Qc, 3 * Qc], 15, 'hare', ae, pol), how={'all_fraction': True})
+    # previous gains EXCEEDING a party's quotas: its remainder is negative and must stay behind the zero remainders
+    yield _mk('lr', [50 * x, 30 * x, 20 * x], rng.choice([12, 13]), 'const:' + str(10 * x), ae, pol, {1: 4})
+    yield _mk('lr', [50 * x, 30 * x + 1, 20 * x], 12, 'const:' + str(10 * x), ae, pol, {1: 5, 2: 1})
     yield dict(_mk('qd', [47 * x, 16 * x, 37 * x], 10, 'droop', True, 'error'), how={'ctor': 'defaults'})
     yield dict(_mk(op, [60, 40], 2, 'const:' + rng.choice(['30', '61/2']), ae, pol), how={'quota_as': 'lambda'})
     # the same object called twice: larger then smaller, after a refusal, previous gains first and then left out
@@ -895,8 +907,9 @@ def _directed_audit(rng, k):
     pw['how'] = {'pre': [{'votes': [[0, num_str(50 * x)], [1, num_str(30 * x)], [2, num_str(20 * x)]], 'n': 10,
                           'prev': [[0, 3], [OTHER, 1]], 'max': [[1, 1]]}], 'call': 'omit_empty'}
     yield pw
-    oth = _mk(op, [50 * x, 30 * x, 20 * x], 7, 'droop', ae, pol)
-    oth['how'] = {'other_first': {'config': {'quota': 'imperiali', 'accept_equal': not ae, 'on_overaward': 'ignore'},
+    oth = _mk(op, [50 * x, 30 * x, 20 * x], 4, 'imperiali', ae, pol)        # over-awards (5 > 4): the policy decides
+    oth['how'] = {'other_first': {'config': {'quota': 'hagenbach_bischoff', 'accept_equal': not ae,
+                                             'on_overaward': POLICIES[(k + 1) % 3]},
                                   'call': {'votes': [[0, num_str(9 * x)], [1, num_str(x)]], 'n': 2, 'prev': [], 'max': []}}}
     yield oth
 
@@ -915,8 +928,11 @@ def _vary_how(rng, c):
         if rng.random() < 0.4:
             how['call'] = rng.choice(['positional', 'omit_empty'])
     if rng.random() < 0.14:
-        o = _random_case(rng)
-        how['pre'] = [{'votes': o['votes'], 'n': o['n'], 'prev': o['prev'], 'max': o['max']}]
+        # an earlier call on the same object: the same parties with up to three times the votes (same magnitude, so
+        # that the shared quota setting stays meaningful), more seats, sometimes previous gains
+        pv = [[i, num_str(Fraction(v_) * rng.choice([1, 2, 3]) + rng.choice([0, 0, 1]))] for i, v_ in c['votes']]
+        pp = [[i, rng.randint(0, 3)] for i, _ in c['votes'] if rng.random() < 0.3]
+        how['pre'] = [{'votes': pv, 'n': c['n'] + rng.randint(0, 4), 'prev': pp, 'max': []}]
     if how:
         c['how'] = how
     return c
@@ -948,7 +964,15 @@ RULE = ('qd / lr: 1-6 parties, votes from tie-forcing small sets, 0..1000, 10^16
         'prev_gains (incl. a party without votes) and max_seats in 35 % of the cases each; directed cases for every '
         'required counter; thorough tier adds two completely enumerated small scopes: every vote vector over {0..3}^(<=3) x '
         'n<=4 x 6 quotas x 3 policies x 2 ops x accept_equal, and every two-party vector over {0..5}^2 x n<=4 x 4 prev_gains '
-        'x 6 max_seats x 3 quotas x 3 policies x 2 ops.  quota: totals 0..200, exact halves, 10^16..10^30, Fractions; n 1..12.  Non-trivial = at least '
+        'x 6 max_seats x 3 quotas x 3 policies x 2 ops.  Generator audit (GENERATOR_CHECKLIST.md): magnitudes 10^9 / 2^53+-1 / '
+        '10^18 / 10^30 with near ties and with exact remainder ties across different whole-quota counts for every '
+        'integer-valued quota; quota given as name / registered callable / caller-written callable / quota.constant(int | '
+        'Fraction); votes all typed Fraction (incl. Fraction(0)); constructor by keyword / positional / defaults; evaluate by '
+        'keyword / positional / omitted empty arguments; the same object called twice (larger then smaller, after a refusal, '
+        'previous gains then none) and another object of the class built and used in between; naming modes str / int0 / '
+        'empty0 / person on every directed shape; subtract with 2+ untied withdrawals, a tie drawn on twice, a level '
+        'consumed; over-award under every quota that can; 2+ zero-vote parties; previous gains covering or exceeding the '
+        'quotas; caps with previous gains.  quota: totals 0..200, exact halves, 10^16..10^30, Fractions; n 1..12.  Non-trivial = at least '
         'two parties and a non-error result (or any quota evaluation); distinct by canonical request.')
 NOT_VERIFIED = ['dict insertion order is the protocol order (CPython dict semantics)',
                 'a Tie whose members are Tie objects is not representable in the model (answers Model:NestedTie; never observed)',
